@@ -12,8 +12,9 @@ Three parts, each a transcription of code that exists in /repo/src:
  (ii)  *Sentinel cache*: `cached_integral_over_activity_image_between_scattpoint_det` /
        `cached_exp_integral_over_attenuation_image_between_scattpoint_det`
        (`value != cache_init_value ⇒ reuse`).
- (iii) *Set-up / cache state machine*: every public setter of `ScatterSimulation`, `set_up`,
-       `process_data`, over abstract value identities (image number 3, template number 1, …).
+ (iii) *Set-up / cache state machine*: every public setter of `ScatterSimulation` (by object, by file name, and the
+       parsed keyword `use cache`), `set_up`, `process_data`, over abstract value identities (image number 3,
+       template number 1, …).
        Derived members carry the identities of the inputs they were computed from (a *stamp*),
        so that "the result equals the result of a freshly configured simulation" is the
        statement that every stamp that is read is the current one.
@@ -30,11 +31,18 @@ hands the same `shared_ptr` to the setter again" is the event `setActivityInPlac
 setter runs; the C++ setters do not compare the new pointer with the old one, so neither do these.
 
 What is not modelled: the values of line integrals / cross sections / efficiencies (inputs of (i)),
-`set_output_proj_data*` (the harness always provides a matching output),
+`set_output_proj_data*` (the harness always provides a matching output, through one of the three public ways),
 default (negative) zoom factors of `downsample_density_image_for_scatter_points` (answered
 `unmodelled`; oracle-only in the harness), `downsample_images_to_scanner_size` (table row only; oracle-only in the
-harness), random placement of scatter points (table row only; the harness runs the same histories with it on),
-32-bit overflow.
+harness), the *positions* drawn by random placement of scatter points (the flag `randomly_place_scatter_points` is a
+setting of the state machine and part of the stamp of the scatter points: points sampled with the flag off are not
+the points a fresh object with the flag on would sample), the other parsed keywords (the parsing constructor is
+compared with the setter route by an oracle in the harness), 32-bit overflow.
+Setters by file name (`set_activity_image`, `set_density_image`, `set_density_image_for_scatter_points`:
+ScatterSimulation.cxx:442,462,506) read the file and call the `_sptr` setter: they are the operations
+`setActivity` / `setDensity` / `setSpImage`; `set_exam_info_sptr` (:764) has the body of `set_exam_info` (:757): both
+are `setExam`; the parsed keyword `use cache` (:274) writes the member like `set_cache_enabled` (:993): both are
+`setCacheEnabled`.
 
 Core Lean only (no Mathlib): this file is linked into the `stirdriver` executable.
 -/
@@ -188,6 +196,8 @@ inductive SpProv where
 structure ScattProv where
   sp : SpProv
   thr : Nat
+  /-- `randomly_place_scatter_points` when the points were sampled -/
+  rnd : Bool
   deriving DecidableEq, Repr
 
 /-- what an entry of `cached_activity_integral_scattpoint_det` was computed from -/
@@ -249,6 +259,8 @@ structure St where
   thr : Nat
   /-- `use_cache` -/
   useCache : Bool
+  /-- `randomly_place_scatter_points` -/
+  rnd : Bool
   /-- `zoom_xy, zoom_z, zoom_size_xy, zoom_size_z` (`none`: the defaults, all -1) -/
   zoom : Option Nat
   /-- `downsample_scanner_bool`, `downsample_scanner_rings`, `downsample_scanner_dets` -/
@@ -280,9 +292,9 @@ structure St where
 
 /-- `ScatterSimulation::set_defaults()` (ScatterSimulation.cxx:218) on a new object.
     `detector_efficiency_no_scatter` and `max_single_scatter_cos_angle` have no initialiser; they are
-    assigned (-1) by `set_template_proj_data_info` / `set_up` before any use. Threshold 0 = 0.01. -/
+    assigned (-1) by `set_template_proj_data_info` / `set_up` before any use. Threshold 0 = 0.01; random placement on. -/
 def init : St :=
-  { act := none, att := none, tmpl := none, exam := none, thr := 0, useCache := true, zoom := none,
+  { act := none, att := none, tmpl := none, exam := none, thr := 0, useCache := true, rnd := true, zoom := none,
     dsBool := false, dsRings := -1, dsDets := -1, spImage := none, scatt := none, detPts := [],
     actCache := none, attCache := none, effNoScatter := none, maxCos := none, alreadySetUp := false,
     gTmpl := none, gSp := none }
@@ -328,7 +340,7 @@ def setDensityInPlace (m : Nat) (s : St) : St × Res := setDensity (some m) (mut
 def sampleScatterPoints (s : St) : St × Res :=
   match s.spImage with
   | none => (s, .crash)
-  | some p => ({ s with scatt := some ⟨p, s.thr⟩, actCache := none, attCache := none }, .ok)
+  | some p => ({ s with scatt := some ⟨p, s.thr, s.rnd⟩, actCache := none, attCache := none }, .ok)
 
 /-- `set_density_image_for_scatter_points_sptr` (ScatterSimulation.cxx:470) -/
 def setSpImage (k : Option Nat) (s : St) : St × Res :=
@@ -347,6 +359,11 @@ def setSpImageInPlace (i : Nat) (s : St) : St × Res := setSpImage (some i) s
 def setExam (e : Nat) (s : St) : St :=
   { s with alreadySetUp := false, exam := some e }
 
+/-- `set_template_proj_data_info(const std::string&)` (ScatterSimulation.cxx:714): reads the projection data,
+    `set_exam_info(its exam info)`, then `set_template_proj_data_info(its ProjDataInfo)` -/
+def setTemplateFile (e : Nat) (t : Tmpl) (s : St) : St :=
+  setTemplate t (setExam e s)
+
 /-- `set_image_downsample_factors` (ScatterSimulation.cxx:515) with non-negative zooms -/
 def setZoom (z : Nat) (s : St) : St :=
   { s with zoom := some z, alreadySetUp := false }
@@ -355,7 +372,16 @@ def setZoom (z : Nat) (s : St) : St :=
 def setThr (t : Nat) (s : St) : St :=
   { s with thr := t, alreadySetUp := false }
 
-/-- `set_cache_enabled` (ScatterSimulation.cxx:990) -/
+/-- `set_randomly_place_scatter_points` (ScatterSimulation.cxx:986): the flag and `_already_set_up`; the scatter
+    points are not sampled again -/
+def setRndPlace (b : Bool) (s : St) : St :=
+  { s with rnd := b, alreadySetUp := false }
+
+/-- `set_cache_enabled` (ScatterSimulation.cxx:993), and the parsed keyword `use cache` (:274, the parser writes
+    `use_cache` directly): the flag only — the cache arrays are neither removed nor allocated and
+    `_already_set_up` is left alone. (What keeps this harmless: every setter removes "its" cache whether or not the
+    cache is enabled — `remove_cache_for_integrals_over_*`, cached_single_scatter_integrals.cxx:33,39, have no
+    `use_cache` test — so arrays that survive a period with the cache disabled only hold current values.) -/
 def setCacheEnabled (b : Bool) (s : St) : St :=
   { s with useCache := b }
 
@@ -547,6 +573,8 @@ inductive Op where
   | setThr (t : Nat)
   | setCacheEnabled (b : Bool)
   | setUseCache (b : Bool)
+  | setRndPlace (b : Bool)
+  | setTemplateFile (e : Nat) (t : Tmpl)
   | setDsBool (b : Bool)
   | setDsRings (n : Int)
   | setDsDets (n : Int)
@@ -569,6 +597,8 @@ def step (W : World) (s : St) : Op → St × Res × Option Out
   | .setThr t => (setThr t s, .ok, none)
   | .setCacheEnabled b => (setCacheEnabled b s, .ok, none)
   | .setUseCache b => (setUseCache b s, .ok, none)
+  | .setRndPlace b => (setRndPlace b s, .ok, none)
+  | .setTemplateFile e t => (setTemplateFile e t s, .ok, none)
   | .setDsBool b => (setDsBool b s, .ok, none)
   | .setDsRings n => (setDsRings n s, .ok, none)
   | .setDsDets n => (setDsDets n s, .ok, none)
@@ -600,6 +630,8 @@ def opOk (s : St) : Op → Bool
   -- enabling the cache after `set_up` ran without it: nothing allocates the arrays
   | .setCacheEnabled b => !(b && !s.useCache && s.alreadySetUp)
   | .setUseCache b => !(b && !s.useCache && s.alreadySetUp)
+  -- `set_randomly_place_scatter_points` does not resample the scatter points of an existing scatter-point image
+  | .setRndPlace b => s.spImage.isNone || s.rnd == b
   -- `downsample_scanner_bool`: every `set_up` down-samples the template again
   | .setDsBool b => !b
   | _ => true
@@ -613,12 +645,35 @@ def runGuarded (W : World) : St → List Op → Option St
     | (_, .crash, _) => none
     | (s', _, _) => runGuarded W s' rest
 
+/-- `set_cache_enabled(true)` / `set_use_cache(true)` (or the parsed keyword) -/
+def isEnable : Op → Bool
+  | .setCacheEnabled true => true
+  | .setUseCache true => true
+  | _ => false
+
+def nextIsSetUp : List Op → Bool
+  | .setUp :: _ => true
+  | _ => false
+
+/-- like `runGuarded`, with a weaker guard for enabling the cache: on an object that is set up it is admitted when the
+    very next operation is `set_up` (which then allocates the arrays). This is the history
+    "compute with the cache on; `set_cache_enabled(false)`; change an image; `set_up`; compute;
+     `set_cache_enabled(true)`; `set_up`; compute". -/
+def runGuarded2 (W : World) : St → List Op → Option St
+  | s, [] => some s
+  | s, op :: rest =>
+    if !(opOk s op || (isEnable op && nextIsSetUp rest)) then none else
+    match step W s op with
+    | (_, .crash, _) => none
+    | (s', _, _) => runGuarded2 W s' rest
+
 /-! ### the freshly configured simulation -/
 
 /-- configure a new object with the current settings of `c`, in the order a careful user would
     (sampling parameters first, then template, exam info, images): what "freshly configured" means -/
 def configure (c : St) : St :=
   let s := init
+  let s := setRndPlace c.rnd s
   let s := setThr c.thr s
   let s := setUseCache c.useCache s
   let s := match c.gTmpl with | some t => setTemplate t s | none => s
@@ -691,24 +746,29 @@ def setterTable : List SetterRow :=
   [ -- ScatterSimulation.cxx:725
     { name := "set_template_proj_data_info", modifies := [.tmpl],
       clears := [.detPts, .effNoScatter, .attCache, .actCache], recomputes := [], resetsSetUp := true },
-    -- :431
+    -- :714 (by file name: set_exam_info, then the setter above)
+    { name := "set_template_proj_data_info(filename)", modifies := [.tmpl, .exam],
+      clears := [.detPts, .effNoScatter, .attCache, .actCache], recomputes := [], resetsSetUp := true },
+    -- :431 (and :442 set_activity_image(filename): reads the file, then this setter)
     { name := "set_activity_image_sptr", modifies := [.act], clears := [.actCache], recomputes := [], resetsSetUp := true },
-    -- :450 (also forgets a user-supplied scatter-point image)
+    -- :450 (also forgets a user-supplied scatter-point image; :462 set_density_image(filename) ends here)
     { name := "set_density_image_sptr", modifies := [.att, .spGiven], clears := [.spImage, .attCache], recomputes := [],
       resetsSetUp := true },
-    -- :470 (sample_scatter_points removes both caches)
+    -- :470 (sample_scatter_points removes both caches; :506 set_density_image_for_scatter_points(filename) ends here)
     { name := "set_density_image_for_scatter_points_sptr", modifies := [.spGiven], clears := [.actCache, .attCache],
       recomputes := [.spImage, .scatt], resetsSetUp := true },
-    -- :757, :764
+    -- :757 set_exam_info, :764 set_exam_info_sptr (same body)
     { name := "set_exam_info", modifies := [.exam], clears := [], recomputes := [], resetsSetUp := true },
     -- :515
     { name := "set_image_downsample_factors", modifies := [.zoom], clears := [], recomputes := [], resetsSetUp := true },
     -- :976
     { name := "set_attenuation_threshold", modifies := [.thr], clears := [], recomputes := [], resetsSetUp := true },
-    -- :983
+    -- :986
     { name := "set_randomly_place_scatter_points", modifies := [.rndPlace], clears := [], recomputes := [], resetsSetUp := true },
-    -- :990
+    -- :993
     { name := "set_cache_enabled", modifies := [.useCache], clears := [], recomputes := [], resetsSetUp := false },
+    -- :274 (initialise_keymap: the parser writes the member)
+    { name := "parsed keyword `use cache`", modifies := [.useCache], clears := [], recomputes := [], resetsSetUp := false },
     -- :71
     { name := "set_use_cache", modifies := [.useCache], clears := [.actCache, .attCache], recomputes := [], resetsSetUp := false },
     -- :777, :793, :809
